@@ -66,7 +66,7 @@ def gen_scenarios(rng: Rng, world: dict) -> list[dict]:
             "type": "paths",
             "via": rng.choice(["api", "cli", "cli"]),
             "cmd": rng.choice(["fix", "fix", "format"]),
-            "processes": rng.choice([1, 2, 2, 4]),
+            "processes": rng.choice([1, 1, 2, 2, 4]),
             "lookahead": rng.choice([1, 2, 8]),
             "dequeue": rng.choice(["fifo", "any"]),
             "backend": "forked" if rng.chance(0.15) else "inproc",
@@ -176,10 +176,17 @@ def run_one(ctx: Any, seed: int, tier: str, replay: Optional[dict] = None) -> di
         hs = replay["hashseed"]
         warm = replay.get("warm", WARM)
     else:
-        world = gen_fix_world(
-            rng.fork("world"),
-            {"kinds": KINDS, "runaway": [10, 10, 2, 1], "min_files": 3, "max_files": 7, "ignore_file": False},
-        )
+        # swarm: some worlds are dominated by one error kind (several files failing the
+        # same way next to each other), some are mixed
+        flavour = rng.fork("flavour").choice(["mixed", "mixed", "undef", "parse", "loop"])
+        kinds = {"mixed": KINDS,
+                 "undef": ["tmpl_undef", "tmpl_undef", "tmpl_undef", "fixable", "clean", "jinja_fixable"],
+                 "parse": ["parse_err", "parse_err", "parse_err", "fixable", "clean"],
+                 "loop": ["fixable", "fixable", "fixable", "jinja_fixable", "parse_err"]}[flavour]
+        feats = {"kinds": kinds, "runaway": [10, 10, 2, 1] if flavour != "loop" else [1, 1, 2], "min_files": 3, "max_files": 7, "ignore_file": False}
+        if flavour == "undef":
+            feats["templater"] = ["jinja"]
+        world = gen_fix_world(rng.fork("world"), feats)
         scenarios = gen_scenarios(rng.fork("scenario"), world)
         hr = rng.fork("hashseed")
         hs = hr.choice(ctx.hashseeds(2))
